@@ -2192,7 +2192,7 @@ func (c *Conn) handleRecordContent(
 					records = append(records, record)
 				}
 			}
-			if len(records) == 0 {
+			if len(records) == 0 && len(content.Records) != 0 {
 				return false, packetOutcome{}, nil
 			}
 		}
